@@ -741,10 +741,14 @@ class SpecEval:
                 from .exec import PredLoc
                 key = ('cellsof', cb.leaves[0].get_id(), dom1.get_id(), val1.get_id(), md2.get_id(), mv2.get_id())
                 return [('H|bigint||Int', PredLoc(holds, key))]
-            if fn == 'innermapsof':
-                # the per-account maps held by the balance cache of the given programState
-                stp = self.eval(ast[2][0], env)
-                cb = self.select(stp, 'CachedBalances', env)
+            if fn in ('innermapsof', 'innermaps'):
+                # innermapsof(st): the per-account maps held by the balance cache of the given programState
+                # innermaps(m):    the maps stored as values of the map m
+                if fn == 'innermapsof':
+                    stp = self.eval(ast[2][0], env)
+                    cb = self.select(stp, 'CachedBalances', env)
+                else:
+                    cb = self.eval(ast[2][0], env)
                 u1, K1, V1 = ex.map_parts(cb.t)
                 st0 = env.st
                 dom1 = z3.Select(st0.heap('MD|%s' % u1), cb.leaves[0])
